@@ -14,6 +14,8 @@ pub use crate::socket::transports::verif_hooks as transports;
 pub use crate::socket::remote_map::path_state_verif_hooks as path_state;
 /// Per-remote actor state: resolve requests and address lookup plumbing without a run loop.
 pub use crate::socket::remote_map::remote_state_verif_hooks as remote_state;
+/// Remote map without a socket: requests, cleanup, racing senders (life-cycle events are in `remote_state`).
+pub use crate::socket::remote_map::verif_hooks as remote_map;
 /// Address lookup registry: crate-private `publish`, last published data, lock probes.
 pub use crate::address_lookup::verif_hooks as address_lookup;
 /// Named pause points (no-ops unless the current thread installed a callback).
